@@ -97,7 +97,7 @@ BF(name, attr, kind, cls, nullable, path) ==
   [name |-> name, attr |-> attr, kind |-> kind, cls |-> cls, tfty |-> TfTyOf(cls), zero |-> HasZeroLit(cls),
    nullable |-> nullable, oneof |-> "", embed |-> "", placeholder |-> FALSE, path |-> path, msg |-> NoMsg,
    required |-> FALSE, computed |-> FALSE, sensitive |-> FALSE, validators |-> <<>>, planmods |-> <<>>,
-   desc |-> <<>>, suffix |-> "", gopath |-> <<name>>, proto |-> name, tn |-> "", fixeddesc |-> "", pzero |-> Nil, pmixed |-> FALSE, goty |-> "", rep |-> FALSE, ismap |-> FALSE]
+   desc |-> <<>>, suffix |-> "", gopath |-> <<name>>, proto |-> name, tn |-> "", fixeddesc |-> "", pzero |-> Nil, pmixed |-> FALSE, goty |-> "", rep |-> FALSE, ismap |-> FALSE, opath |-> <<>>]
 
 PlaceholderDesc == "Automatically generated field preventing empty message errors"
 
@@ -159,12 +159,18 @@ InjTT(inj) == [a \in {inj[i].name : i \in DOMAIN inj} |-> TPrim(inj[CHOOSE i \in
 
 Merge(f, g) == [x \in (DOMAIN f) \cup (DOMAIN g) |-> IF x \in DOMAIN g THEN g[x] ELSE f[x]]
 
+RECURSIVE HolderPathsFrom(_, _, _)
+HolderPathsFrom(fs, i, acc) ==
+  IF i > Len(fs) THEN acc
+  ELSE HolderPathsFrom(fs, i + 1, IF fs[i].opath = <<>> \/ (\E k \in DOMAIN acc : acc[k] = fs[i].opath) THEN acc ELSE Append(acc, fs[i].opath))
+HolderPaths(fs) == HolderPathsFrom(fs, 1, <<>>)
+
 \* ---- BuildMessage / BuildFields / BuildField
 RECURSIVE BuildMsg(_, _, _, _, _, _)
 RECURSIVE BuildFieldsFrom(_, _, _, _, _, _, _)
 
 \* result of BuildMsg: [ok, m, err]
-NoBuilt == [name |-> "", path |-> "", empty |-> TRUE, oneofs |-> <<>>, fields |-> <<>>, injected |-> <<>>,
+NoBuilt == [name |-> "", path |-> "", empty |-> TRUE, oneofs |-> <<>>, ohold |-> <<>>, fields |-> <<>>, injected |-> <<>>,
             zero |-> Nil, tt |-> TNone, depth |-> 0, hasembed |-> FALSE]
 
 BuildField(q, d, cfg, m, mpath, i, fuel) ==
@@ -191,7 +197,9 @@ BuildField(q, d, cfg, m, mpath, i, fuel) ==
                  !.tfty = IF ovr = "string" THEN "ovrstring" ELSE IF ovr = "int64" THEN "ovrint64" ELSE @,
                  !.rep = f.card = "rep",
                  !.ismap = f.card = "map",
-                 !.oneof = IF f.oneof = "" THEN "" ELSE GoName(f.oneof)]
+                 !.oneof = IF f.oneof = "" THEN "" ELSE GoName(f.oneof),
+                 \* Go path of the holder of the field's oneof group (prefixed like gopath when the message is embedded)
+                 !.opath = IF f.oneof = "" THEN <<>> ELSE <<GoName(f.oneof)>>]
       iscustom == f.custom # "" \/ KVHas(cfg.customtypes, path)
       custom(F) == IF iscustom THEN [F EXCEPT !.kind = "custom", !.suffix = SuffixOf(cfg, CustomTypeOf(cfg, f, path))] ELSE F
   IN
@@ -213,6 +221,7 @@ BuildField(q, d, cfg, m, mpath, i, fuel) ==
             LET par == GoName(f.ref)
             IN Ok([j \in DOMAIN sub.m.fields |->
                     [sub.m.fields[j] EXCEPT !.gopath = <<par>> \o @,
+                                            !.opath = IF @ = <<>> THEN @ ELSE <<par>> \o @,
                                             !.embed = IF f.nullable THEN par ELSE @,
                                             !.pzero = IF f.nullable THEN ZeroStruct(d, f.ref) ELSE @,
                                             !.pmixed = IF f.nullable THEN \E k \in DOMAIN sub.m.fields : sub.m.fields[k].kind # "prim" ELSE @]])
@@ -238,7 +247,9 @@ BuildMsg(q, d, cfg, mn, path, fuel) ==
       inj == InjectedOf(cfg, path)
   IN IF ~built.ok THEN [ok |-> FALSE, m |-> NoBuilt, err |-> built.err]
      ELSE [ok |-> TRUE, err |-> "",
-           m |-> [name |-> mn, path |-> path, empty |-> empty, oneofs |-> OneofHolders(m), fields |-> fs,
+           \* oneofs: the groups the message itself declares (GetOneOfNames); ohold: the holder paths of ALL groups
+           \* among its fields, those flattened in from embedded messages included (first appearance order)
+           m |-> [name |-> mn, path |-> path, empty |-> empty, oneofs |-> OneofHolders(m), ohold |-> HolderPaths(fs), fields |-> fs,
                   injected |-> inj, zero |-> ZeroStruct(d, mn), tt |-> TObj(Merge(TTofFields(fs), InjTT(inj))),
                   depth |-> 6 - fuel, hasembed |-> \E i \in DOMAIN m.fields : m.fields[i].embed]]
 
